@@ -85,21 +85,22 @@ Definition g_nchi (m : cmode) (cutoff : Q) (max_bond renorm : Z) (s : list Q) : 
   else if (0 <? max_bond)%Z then max_bond
   else lenZ s.
 
-(* None = the Python code raises (UnboundLocalError: `tot` / `pow` only exist
-   in the sum modes) *)
-Definition g_trim (m : cmode) (cutoff : Q) (max_bond renorm : Z) (s : list Q) : option trim :=
+(* the whole generic routine (after fix 91dfb209: the kept values are
+   renormalised with the REQUESTED power, spr = sabs**renorm if renorm >= 2 else
+   sabs; norm = (sum spr / sum spr[:n_chi]) ** (1/renorm); no mode-dependent
+   variables are used, so no mode raises) *)
+Definition g_trim (m : cmode) (cutoff : Q) (max_bond renorm : Z) (s : list Q) : trim :=
   let n := g_nchi m cutoff max_bond renorm s in
   if (n <? lenZ s)%Z then
     let err2 := sumsq (py_drop n s) in
     if (0 <? renorm)%Z then
-      if is_sum_mode m then
-        let csp := cumsum_from 0 (map (powq (mode_pow m)) s) in
-        Some {| t_svals := py_take n s;
-                t_rn := Some (mode_pow m, last csp 0, nth (Z.to_nat (n - 1)) csp 0);
-                t_err2 := err2 |}
-      else None
-    else Some {| t_svals := py_take n s; t_rn := None; t_err2 := err2 |}
-  else Some {| t_svals := s; t_rn := None; t_err2 := 0 |}.
+      let raise_power := (2 <=? renorm)%Z in
+      let spr := map (fun x => if raise_power then Qpower x renorm else x) s in
+      {| t_svals := py_take n s;
+         t_rn := Some (if raise_power then renorm else 1%Z, sumQ spr, sumQ (py_take n spr));
+         t_err2 := err2 |}
+    else {| t_svals := py_take n s; t_rn := None; t_err2 := err2 |}
+  else {| t_svals := s; t_rn := None; t_err2 := 0 |}.
 
 (* --------------- numba path: _compute_number_svals_to_keep_numba etc. ---- *)
 
@@ -159,10 +160,12 @@ Definition disc (p : Z) (s : list Q) (n : Z) : Q := sumQ (map (powq p) (skipn (Z
 (* --------------------------------------------------------- absorb tables -- *)
 
 (* what a returned factor is, in terms of the SVD  U diag(s) VH *)
-Inductive lfac := LNone | LU | LUs | LUsq.
-Inductive rfac := RNone | RVH | RsVH | RsqVH.
-Definition lfac_eqb a b := match a, b with LNone, LNone | LU, LU | LUs, LUs | LUsq, LUsq => true | _, _ => false end.
-Definition rfac_eqb a b := match a, b with RNone, RNone | RVH, RVH | RsVH, RsVH | RsqVH, RsqVH => true | _, _ => false end.
+(* LPiso / RPiso: a partial isometry that is NOT isometric in the direction Tensor.split would flag
+   (W VH of a polar decomposition of a non-square matrix) *)
+Inductive lfac := LNone | LU | LUs | LUsq | LPiso.
+Inductive rfac := RNone | RVH | RsVH | RsqVH | RPiso.
+Definition lfac_eqb a b := match a, b with LNone, LNone | LU, LU | LUs, LUs | LUsq, LUsq | LPiso, LPiso => true | _, _ => false end.
+Definition rfac_eqb a b := match a, b with RNone, RNone | RVH, RVH | RsVH, RsVH | RsqVH, RsqVH | RPiso, RPiso => true | _, _ => false end.
 
 (* absorb codes: None = 'full' (get_U_s_VH) *)
 Definition get_s := 2%Z.        Definition get_Usq := (-12)%Z.
@@ -226,12 +229,12 @@ Definition returns_right_absorbs : list (option Z) :=
   [None; Some get_VH; Some get_Us_VH; Some get_Usq_sqVH; Some get_U_sVH; Some get_sVH; Some get_sqVH].
 
 (* transposition of a factor description: (U diag(s) VH)^T = VH^T diag(s) U^T *)
-Definition l_of_r (r : rfac) : lfac := match r with RNone => LNone | RVH => LU | RsVH => LUs | RsqVH => LUsq end.
-Definition r_of_l (l : lfac) : rfac := match l with LNone => RNone | LU => RVH | LUs => RsVH | LUsq => RsqVH end.
+Definition l_of_r (r : rfac) : lfac := match r with RNone => LNone | RVH => LU | RsVH => LUs | RsqVH => LUsq | RPiso => LPiso end.
+Definition r_of_l (l : lfac) : rfac := match l with LNone => RNone | LU => RVH | LUs => RsVH | LUsq => RsqVH | LPiso => RPiso end.
 
 (* power of s carried by a factor, in half units *)
-Definition lpow2 (l : lfac) : Z := match l with LNone | LU => 0 | LUs => 2 | LUsq => 1 end%Z.
-Definition rpow2 (r : rfac) : Z := match r with RNone | RVH => 0 | RsVH => 2 | RsqVH => 1 end%Z.
+Definition lpow2 (l : lfac) : Z := match l with LNone | LU | LPiso => 0 | LUs => 2 | LUsq => 1 end%Z.
+Definition rpow2 (r : rfac) : Z := match r with RNone | RVH | RPiso => 0 | RsVH => 2 | RsqVH => 1 end%Z.
 
 (* _ABSORB_MAP aliases *)
 Open Scope string_scope.
@@ -303,10 +306,16 @@ Definition parse_method_absorb (m : meth) (a : aarg) (truncation : bool) : meth 
   | ACode c => (m, c)
   end.
 
-(* parse_split_left_right_isom *)
+(* parse_split_left_right_isom (after fix 740177ad): cholesky never flags;
+   the polar drivers ignore `absorb`, so their default form decides *)
 Definition parse_isom (m : meth) (a : aarg) : bool * bool :=
-  let '(_, c) := parse_method_absorb m a true in
-  (code_in c [None; Some get_U_sVH; Some get_U], code_in c [None; Some get_Us_VH; Some get_VH]).
+  let '(m', c) := parse_method_absorb m a true in
+  match m' with
+  | MCholesky => (false, false)
+  | _ =>
+      let c := match m' with MPolarRight | MPolarLeft => default_absorb m' | _ => c end in
+      (code_in c [None; Some get_U_sVH; Some get_U], code_in c [None; Some get_Us_VH; Some get_VH])
+  end.
 
 (* What each registered driver (numpy backend) returns for a resolved absorb
    code, as a description in terms of an SVD-like factorisation; None = the
@@ -317,7 +326,13 @@ Definition qr_like (c : option Z) : option (lfac * bool * rfac) :=
   if code_in c [Some get_U_sVH; Some get_U; Some get_sVH; Some get_Us_VH; Some get_Us; Some get_VH]
   then do_absorb c else None.
 
-Definition driver_returns (m : meth) (c : option Z) : option (lfac * bool * rfac) :=
+(* shape class of the matrix (rows vs columns): only the polar drivers depend on it *)
+Inductive shape := Tall | Square | Wide.
+Definition shape_id (s : shape) : Z := match s with Tall => 0 | Square => 1 | Wide => 2 end%Z.
+Definition shape_of_id (i : Z) : shape := match i with 0%Z => Tall | 2%Z => Wide | _ => Square end.
+Definition all_shapes : list shape := [Tall; Square; Wide].
+
+Definition driver_returns (m : meth) (sh : shape) (c : option Z) : option (lfac * bool * rfac) :=
   match m with
   | MSvd | MSvdEig | MSvdRand | MEigh | MSvds | MIsvd | MRsvd | MEigsh => do_absorb c
   | MQr | MQrCholesky => qr_like c
@@ -328,8 +343,9 @@ Definition driver_returns (m : meth) (c : option Z) : option (lfac * bool * rfac
                   else if (z =? get_sqVH)%Z then Some (LNone, false, RsqVH)
                   else Some (LUsq, false, RsqVH)   (* numba: every other code gives (L, None, L^H) *)
       end
-  | MPolarRight => match c with None => None | _ => Some (LU, false, RsVH) end
-  | MPolarLeft => match c with None => None | _ => Some (LUs, false, RVH) end
+  (* x = (W VH) P: W VH has orthonormal columns only when rows >= columns *)
+  | MPolarRight => match c with None => None | _ => Some (match sh with Wide => LPiso | _ => LU end, false, RsVH) end
+  | MPolarLeft => match c with None => None | _ => Some (LUs, false, match sh with Tall => RPiso | _ => RVH end) end
   | MLu => match c with Some 0%Z => Some (LUsq, false, RsqVH) | _ => None end
   | _ => None
   end.
@@ -339,13 +355,13 @@ Definition driver_returns (m : meth) (c : option Z) : option (lfac * bool * rfac
 (* Python values that can be passed as `renorm` *)
 Inductive pyval := PNone | PBool (b : bool) | PInt (z : Z).
 
-(* Python `==` (and hash equality): True == 1, False == 0 *)
-Definition py_num (v : pyval) : option Z :=
-  match v with PNone => None | PBool b => Some (if b then 1 else 0)%Z | PInt z => Some z end.
+(* key equality of functools.lru_cache(typed=True) (after fix 29128285): the
+   type is part of the key, so True / 1 and False / 0 are different keys *)
 Definition py_eqb (a b : pyval) : bool :=
-  match py_num a, py_num b with
-  | None, None => true
-  | Some x, Some y => (x =? y)%Z
+  match a, b with
+  | PNone, PNone => true
+  | PBool x, PBool y => Bool.eqb x y
+  | PInt x, PInt y => (x =? y)%Z
   | _, _ => false
   end.
 
@@ -361,7 +377,7 @@ Definition parse_renorm (m : cmode) (r : pyval) : Z :=
   | PInt z => z
   end%Z.
 
-(* functools.cache: a dictionary keyed by the argument tuple, compared with == *)
+(* the cache: a dictionary keyed by the (typed) argument tuple *)
 Definition cache := list ((cmode * pyval) * Z).
 Definition key_eqb (k1 k2 : cmode * pyval) : bool :=
   (cmode_code (fst k1) =? cmode_code (fst k2))%Z && py_eqb (snd k1) (snd k2).
